@@ -45,6 +45,8 @@ var scenarios = []scenario{
 	{Name: "same-metric", Threads: [][]call{{{Kind: "metric", NS: "ns", Name: "m"}}, {{Kind: "metric", NS: "ns", Name: "m"}}}},
 	{Name: "same-metric-x3", Threads: [][]call{{{Kind: "metric", NS: "ns", Name: "m"}}, {{Kind: "metric", NS: "ns", Name: "m"}}, {{Kind: "metric", NS: "ns", Name: "m"}}}},
 	{Name: "two-metrics-one-ns", Threads: [][]call{{{Kind: "metric", NS: "ns", Name: "m1"}}, {{Kind: "metric", NS: "ns", Name: "m2"}}}},
+	// the pair (namespace, name) is the key, not the concatenation: "ab"+"c" and "a"+"bc" are two metrics
+	{Name: "ns-name-boundary", Threads: [][]call{{{Kind: "metric", NS: "ab", Name: "c"}, {Kind: "metric", NS: "a", Name: "bc"}}, {{Kind: "metric", NS: "a", Name: "bc"}, {Kind: "metric", NS: "abc", Name: "c"}, {Kind: "metric", NS: "ab", Name: "cc"}}}},
 	{Name: "two-ns-one-bucket", Threads: [][]call{{{Kind: "metric", NS: "n1", Name: "m"}}, {{Kind: "metric", NS: "n2", Name: "m"}}}},
 	{Name: "metric-after-flush", Pre: []call{{Kind: "metric", NS: "ns", Name: "old"}}, PreFlush: true,
 		Threads: [][]call{{{Kind: "metric", NS: "ns", Name: "old"}, {Kind: "metric", NS: "ns", Name: "m"}}, {{Kind: "metric", NS: "ns", Name: "m"}}}},
